@@ -691,7 +691,12 @@ def node_sets(tier):
             [('LEGENDRE', R_, 5), ('LEGENDRE', R_, 3), ('LEGENDRE', R_, 2)], [('LEGENDRE', R_, 3), ('LEGENDRE', R_, 3), ('LEGENDRE', R_, 2)],
             [('LEGENDRE', R_, 3), ('LEGENDRE', R_, 2), ('LEGENDRE', R_, 1)], [('LEGENDRE', L_, 4), ('LEGENDRE', L_, 2), ('LEGENDRE', L_, 2)],
             [('LEGENDRE', G_, 4), ('EQUID', R_, 3), ('LEGENDRE', L_, 2)],
+            # equal node COUNTS on two neighbouring levels but different node SETS: the transfer in time is not the identity,
+            # and (middle -> coarsest) the middle level hands down a non-zero FAS correction of its own
+            [('LEGENDRE', R_, 5), ('LEGENDRE', R_, 3), ('LEGENDRE', L_, 3)], [('LEGENDRE', R_, 3), ('LEGENDRE', G_, 2), ('LEGENDRE', R_, 2)],
+            [('LEGENDRE', R_, 4), ('EQUID', R_, 3), ('LEGENDRE', R_, 3)],
         ]  # fmt: skip
+        pairs.append([('LEGENDRE', R_, 3), ('LEGENDRE', L_, 3)])
         return pairs + triples
     for nt, qt in FAMILIES:
         for Mf in range(2, 6):
@@ -707,6 +712,12 @@ def node_sets(tier):
                 out.append([(nt, qt, m) for m in Ms])
     for trip in ([('LEGENDRE', 'GAUSS', 4), ('EQUID', 'RADAU-RIGHT', 3), ('LEGENDRE', 'LOBATTO', 2)], [('CHEBY-2', 'LOBATTO', 5), ('LEGENDRE', 'RADAU-RIGHT', 3), ('EQUID', 'GAUSS', 1)]):
         out.append(trip)
+    F2 = [f for f in FAMILIES if f[0] in ('LEGENDRE', 'EQUID')]
+    for a in F2:  # equal node counts, different node sets (pairs, and triples whose middle level hands down its own correction)
+        for b in F2:
+            if a != b:
+                out.append([(a[0], a[1], 3), (b[0], b[1], 3)])
+                out.append([('LEGENDRE', 'RADAU-RIGHT', 5), (a[0], a[1], 3), (b[0], b[1], 3)])
     return out
 
 
